@@ -192,7 +192,7 @@ def run(ctx):
         trace = os.path.join(ctx.work, "replay-%s.ndjson" % c["name"])
         resf = os.path.join(ctx.work, "replay-%s.json" % c["name"])
         ctx.run([binp, "replay", "-edges", r["edges_file"], "-cfg", json.dumps(c["spec"]), "-out", trace, "-res", resf,
-                 "-sample", str(k), "-reps", "2" if thorough else "1"], timeout=2400)
+                 "-sample", str(k), "-reps", "1"], timeout=2400)
         os.remove(r["edges_file"])
         return c, r, trace, json.load(open(resf)), k
 
@@ -206,7 +206,7 @@ def run(ctx):
             if r["zero_cov"]:
                 ctx.note_inconclusive("TLC coverage: actions never taken in %s: %s" % (c["name"], sorted(set(r["zero_cov"]))))
             hist = res["counters"].get("distinct_histories", 0)
-            want = sum(1 for e in range(1, hist + 1) if k <= 1 or (e + ctx.seed) % k == 0) * (2 if thorough else 1)
+            want = sum(1 for e in range(1, hist + 1) if k <= 1 or (e + ctx.seed) % k == 0)
             if not res["executed"] or res["executed"] != want:
                 ctx.note_inconclusive("replay of %s executed %s of %s sampled histories" % (c["name"], res["executed"], want))
             edges_total += res["executed"]
@@ -288,6 +288,28 @@ def run(ctx):
             scen.reverse()
             ctx.violation(sig_of(direction, scen[0], v), replay={"scenario": scen, "viol": v})
     ctx.extra["trace_lines_validated"] = lines_validated
+
+    # ---- the judge is alive: one recorded field corrupted (first exemplar value of the random trace + 1) must be rejected
+    st = os.path.join(ctx.work, "selftest.ndjson")
+    corrupted = False
+    with open(rtrace) as f, open(st, "w") as out:
+        for i, line in enumerate(f):
+            if i >= 400:
+                break
+            if not corrupted and '"ev":"Cycle"' in line:
+                rec = json.loads(line)
+                for p in rec["pts"]:
+                    if p["ex"]:
+                        p["ex"][0]["v"] += 1
+                        corrupted = True
+                        line = json.dumps(rec, separators=(",", ":")) + "\n"
+                        break
+            out.write(line)
+    sv, _ = ctx.validate_trace(S, "Trace_Exemplar", "Trace_Exemplar.cfg", st, timeout=600, name="trace-selftest")
+    ctx.extra["selftest_corrupted_value_rejected"] = bool(corrupted and any(v.get("clause") in ("exemplar-value", "one-measurement-exported-twice",
+                                                                                               "exemplar-matches-no-measurement") for v in sv))
+    if not ctx.extra["selftest_corrupted_value_rejected"]:
+        ctx.note_inconclusive("self-test: a trace with a corrupted exemplar value was not rejected (corrupted=%s, viols=%s)" % (corrupted, sv[:3]))
 
     # ---- vacuity: the interesting regimes were reached on the real code
     need = ["replay_exemplars", "replay_exemplars_with_filtered_attributes", "replay_exemplars_with_span", "replay_points_delta",
